@@ -1,11 +1,13 @@
 """C01 - merge is a commutative-monoid homomorphism (metamorphic, library vs library)."""
 
+import pickle
+
 from hypothesis import strategies as st
 
 from .. import gen, model, norm
 from ..common import lib
 from ..core import require
-from ..spec import build, kinds
+from ..spec import build, kinds, walk_spec
 
 ID = "C01"
 BUDGET = {"quick": (4, 500), "thorough": (16, 6000)}
@@ -45,6 +47,8 @@ def strategy(tier):
             "perm": list(perm),
             "sched": sched,
             "fresh": draw(st.sampled_from(("build", "zero", "copy"))),
+            # content-preserving detours a partial result may take before it is merged ("every reachable state")
+            "detour": [draw(st.sampled_from(("none", "none", "none", "copy", "reload", "pickle", "times1", "plus-zero"))) for _ in range(k)],
             "fill_api": draw(st.sampled_from(("fill", "fill", "increment"))),
             "merge_api": draw(st.sampled_from(("+", "+", "combine"))),
         }
@@ -96,6 +100,20 @@ def check(case):
             h = build(spec)
         _fill(h, ch, case["fill_api"])
         partials.append(h)
+    hg = lib()
+    transforms = any(s_["k"] == "Count" and s_.get("transform") for _, s_ in walk_spec(spec))
+    boolcat = any(s_["k"] == "Categorize" and s_["q"]["col"] == "b" for _, s_ in walk_spec(spec))  # known C04 finding
+    for i, how in enumerate(case.get("detour", [])[: len(partials)]):
+        if how == "copy":
+            partials[i] = partials[i].copy()
+        elif how == "pickle":
+            partials[i] = pickle.loads(pickle.dumps(partials[i]))
+        elif how == "plus-zero":
+            partials[i] = partials[i].zero() + partials[i]
+        elif how == "times1" and not transforms:
+            partials[i] = partials[i] * 1.0
+        elif how == "reload" and not transforms and not boolcat:
+            partials[i] = hg.Factory.fromJson(partials[i].toJson())
     dparts = [doc(p) for p in partials]
 
     items = [partials[i] for i in case["perm"]]
@@ -105,7 +123,12 @@ def check(case):
         i = s % (len(items) - 1)
         items[i : i + 2] = [_merge(items[i], items[i + 1], case["merge_api"])]
     reduced = items[0]
-    d = norm.diff(dwhole, doc(reduced), pol)
+    if "reload" in case.get("detour", []):
+        # a JSON reload keeps content but may lose quantity names (C04's business): compare content only
+        dwhole = doc(whole, names=False)
+        d = norm.diff(dwhole, doc(reduced, names=False), pol)
+    else:
+        d = norm.diff(dwhole, doc(reduced), pol)
     require(not d, "partition", lambda: f"fill-all differs from the reduction of {len(chunks)} chunks: {norm.fmt(d)}")
 
     # merging must not have changed the partial results
@@ -113,23 +136,24 @@ def check(case):
         dd = norm.diff(dparts[i], doc(p), norm.BITEXACT)
         require(not dd, "operand-mutated", lambda: f"partial {i} changed by the reduction: {norm.fmt(dd)}")
 
+    nm = "reload" not in case.get("detour", [])  # a reload may lose names of empty sparse containers (C04)
     # identity
     z = reduced.zero()
-    dz = norm.diff(doc(build(spec)), doc(z), norm.BITEXACT)
+    dz = norm.diff(doc(build(spec), nm), doc(z, nm), norm.BITEXACT)
     require(not dz, "zero-not-empty", lambda: f"zero() differs from a fresh tree: {norm.fmt(dz)}")
-    dred = doc(reduced)
+    dred = doc(reduced, nm)
     for name, r in (("B+zero", reduced + z), ("zero+B", z + reduced)):
-        di = norm.diff(dred, doc(r), norm.BITEXACT)
+        di = norm.diff(dred, doc(r, nm), norm.BITEXACT)
         require(not di, "identity", lambda: f"{name} != B: {norm.fmt(di)}")  # noqa: B023
 
     # commutativity / associativity on partials
     if len(partials) >= 2:
         p, q = partials[0], partials[-1]
-        dc = norm.diff(doc(p + q), doc(q + p), pol)
+        dc = norm.diff(doc(p + q, nm), doc(q + p, nm), pol)
         require(not dc, "commutativity", lambda: f"P+Q != Q+P: {norm.fmt(dc)}")
     if len(partials) >= 3:
         p, q, r = partials[0], partials[1], partials[2]
-        da = norm.diff(doc((p + q) + r), doc(p + (q + r)), pol)
+        da = norm.diff(doc((p + q) + r, nm), doc(p + (q + r), nm), pol)
         require(not da, "associativity", lambda: f"(P+Q)+R != P+(Q+R): {norm.fmt(da)}")
 
     live = sum(1 for ch in chunks if any(w == w and w > 0 for _, w in ch))
